@@ -2375,8 +2375,14 @@ def check_symmetry_number(prog: Program, res: Result) -> None:
         res.unrecognised("R-SYMNUM", inst, fi.loc(), "search call")
         return
     c = calls[0]
-    kw = {k.arg: norm(k.value) for k in c.keywords}
-    args = [norm(a) for a in c.args[:2]]
+    bound = prog.bound_args(c)
+    if bound is not None:
+        sig = prog.signature_of("vf2pp_all_isomorphisms")
+        kw = {k: norm(v) for k, v in bound.items()}
+        args = [kw.get(p_) for p_ in sig[:2]]
+    else:
+        kw = {k.arg: norm(k.value) for k in c.keywords}
+        args = [norm(a) for a in c.args[:2]]
     if args == [g, g] and kw.get("stereo") == "True" and kw.get(
             "subgraph", "False") == "False":
         res.ok("R-SYMNUM", inst, fi.loc(c))
